@@ -105,3 +105,21 @@ Theorem C40_half_closed_stream_data_rejected : forall c id n fin s,
   process_data c id n fin = drop_data c id n 9.
 Proof. exact data_closed_stream. Qed.
 Print Assumptions C40_half_closed_stream_data_rejected.
+
+(* Lifting to whole histories.  `reach c`: c is the state after some event history from a fresh connection.
+   Every reachable state satisfies the inbound invariant, and from every reachable state ANY further event
+   (client frame or handler action) reaches no panic site and leads to a reachable state again; so each of the
+   per-event rule theorems above (stated for an arbitrary state c) applies at every point of every history,
+   and C40_replenish_by_consumed_reads holds there without its invariant premise. *)
+Theorem C40_reachable_states_invariant : forall c, reach c -> Inv c.
+Proof. exact reach_inv. Qed.
+Print Assumptions C40_reachable_states_invariant.
+Theorem C40_every_event_after_every_history : forall c ev c' fs x,
+  reach c -> ev_ok ev = true -> step c ev = Some (c', fs, x) -> has_bug fs = false /\ reach c'.
+Proof. exact reach_step. Qed.
+Print Assumptions C40_every_event_after_every_history.
+Theorem C40_replenish_on_every_history : forall c id k s,
+  reach c -> find_s id (strs c) = Some s -> 0 < zmin k (buf s) -> muted c = false ->
+  exists c' fs, handler_read c id k = (c', f_wu 0 (zmin k (buf s)) :: fs, zmin k (buf s)).
+Proof. exact reach_read_replenishes. Qed.
+Print Assumptions C40_replenish_on_every_history.
